@@ -139,7 +139,7 @@ def run(ck, facts, tier):
     pk = "chalk_solve::clauses::program_clauses_that_could_match"
     pb = need_body(ck, facts, R, pk)
     if pb:
-        ms = [m for m in enum_matches(pb.thir, "chalk_ir::DomainGoal")]
+        ms = [m for m in enum_matches(facts.thir(pb.key), "chalk_ir::DomainGoal")]
         routed = set()
         for m in ms:
             for v in ("IsUpstream", "IsFullyVisible", "IsLocal", "DownstreamType"):
